@@ -590,7 +590,7 @@ class SortedSet(object):
             if self._items[i] == item:
                 self._items.pop(i)
                 return
-        raise KeyError('%r' % item)
+        raise KeyError('%r' % (item,))
 
     def union(self, *others):
         union = sortedset()
